@@ -173,15 +173,17 @@ func build(tmp string, cfg *propCfg) string {
 }
 
 type workerOut struct {
-	res    *core.Result
-	stderr string
-	err    error
-	code   int
+	res      *core.Result
+	stderr   string
+	err      error
+	code     int
+	progress string
 }
 
 func runWorker(tmp, bin string, job core.Job, cfg *propCfg, timeout time.Duration, extraEnv ...string) workerOut {
 	jobPath := filepath.Join(tmp, fmt.Sprintf("job-%d-%d.json", job.Worker, time.Now().UnixNano()))
 	job.Out = jobPath + ".out"
+	job.Progress = jobPath + ".progress"
 	jb, _ := json.Marshal(job)
 	if err := os.WriteFile(jobPath, jb, 0o644); err != nil {
 		return workerOut{err: err}
@@ -208,7 +210,7 @@ func runWorker(tmp, bin string, job core.Job, cfg *propCfg, timeout time.Duratio
 		<-done
 		return workerOut{err: fmt.Errorf("worker %d exceeded its real-time backstop of %v", job.Worker, timeout), stderr: sb.String()}
 	}
-	wo := workerOut{stderr: sb.String()}
+	wo := workerOut{stderr: sb.String(), progress: job.Progress}
 	if werr != nil {
 		if ee, ok := werr.(*exec.ExitError); ok {
 			wo.code = ee.ExitCode()
@@ -355,6 +357,14 @@ func check(id, tier string) int {
 					continue
 				}
 			}
+			if o.res == nil && part.Race && strings.Contains(o.stderr, "panic: ") {
+				if cf := crashFound(tmp, bin, part, tier, seed, o); len(cf) > 0 {
+					for _, f := range cf {
+						found = append(found, partFound{Found: f, part: part, bin: bin})
+					}
+					continue
+				}
+			}
 			if o.res == nil {
 				fatal2("%s worker %d produced no result: %v\n%s", part.Key, w, o.err, tail(o.stderr, 4000))
 			}
@@ -415,7 +425,7 @@ func check(id, tier string) int {
 		nViol++
 		path := writeReplay(id, pf.part.Key, f)
 		// confirm in a fresh process
-		if f.Clause != "data-race" {
+		if f.Clause != "data-race" && f.Clause != "crash" {
 			ro := runWorker(tmp, pf.bin, core.Job{Property: pf.part.Key, Tier: tier, Mode: "replay", Replay: path, Worker: 99}, pf.part.asCfg(), 10*time.Minute)
 			if ro.res == nil || ro.res.Error != "" {
 				fatal2("replay of %s failed to run: %v %s", path, ro.err, tail(ro.stderr, 2000))
